@@ -1667,17 +1667,20 @@ class World:
 
     def gen_rm_all(self, rng, h):
         model = self.h[h].model
-        t = self.target(rng, h, "container", lambda r: len(r["children"]) >= 2 and not r.get("concat_group"))
+        # (a group, or an object with several data sets)
+        t = self.target(rng, h, "holder", lambda r: len(r["children"]) >= 2 and not r.get("concat_group") and not r.get("concat"))
         return None if t is None else {"t": t}
 
     def do_rm_all(self, op):
         """The 'detach all' idiom: parent.remove_children(parent.children) -- the live list itself is passed."""
         h = op["h"]
         model = self.h[h].model
-        uid = self.resolve(h, op["t"], lambda r: len(r["children"]) >= 2 and not r.get("concat_group"))
+        uid = self.resolve(h, op["t"], lambda r: len(r["children"]) >= 2 and not r.get("concat_group") and not r.get("concat"))
         if uid is None:
             return "skipped"
         kids = list(model.recs[uid]["children"])
+        if model.recs[uid]["kind"] == "object":
+            self.sim.probe("rm_all_data_of_object")
         parent = self.ent(h, uid) if uid != model.root else self.h[h].ws.root
         self.touch(h, *kids)
         _, outcome = self.call(lambda: parent.remove_children(parent.children), what="rm_all")
@@ -1687,6 +1690,12 @@ class World:
         gone = []
         for kid in kids:
             gone += self._model_remove(h, kid, "parent")
+        if uid in model.recs and model.recs[uid]["kind"] == "object" and model.recs[uid].get("pgs"):
+            # an object's list of children holds its property groups as well: they were handed over with the data
+            for pg_uid in list(model.recs[uid]["pgs"]):
+                model.removed.add(pg_uid)
+            model.recs[uid]["pgs"] = {}
+            self.touch_pg(h, uid)
         if self.tidy:
             for g in gone:
                 self.slots.pop((h, g), None)
